@@ -7,7 +7,10 @@
 (* exactly as sign + little-endian bit list ("Big" values) with the few operations needed: successor,       *)
 (* predecessor, power of two, range tests, two's-complement bytes of a given width, minimal width.          *)
 (* One shared case space serves C11 (round trip), C12 (bytes), C13 (lossless or error) and C14 (NULL).      *)
-EXTENDS Integers, Sequences, SequencesExt, FiniteSets, TLC, Json
+EXTENDS Integers, Sequences, SequencesExt, FiniteSets, TLC, Json, IOUtils
+
+\* thorough tier (environment VERIF_DEEP=1): every exponent 0..130 instead of the width boundaries, two more decimal digits of slack
+Deep == "VERIF_DEEP" \in DOMAIN IOEnv /\ IOEnv.VERIF_DEEP = "1"
 
 -----------------------------------------------------------------------------
 (* Big integers: [neg |-> BOOLEAN, mag |-> bits, little-endian, no leading (high) zero; zero = <<>>]        *)
@@ -89,7 +92,7 @@ Preferred(t) == CASE t = "tinyint" -> "int8" [] t = "smallint" -> "int16" [] t =
                   [] t = "date" -> "time" [] t = "time" -> "duration" [] t = "timestamp" -> "time"
 
 \* boundary values: 0, +-1, +-2, and 2^e + d, -(2^e) + d for the widths that matter and d in -1..1
-Exps == {7, 8, 15, 16, 31, 32, 63, 64, 100}
+Exps == IF Deep THEN 2..130 ELSE {7, 8, 15, 16, 31, 32, 63, 64, 100}
 Around(n) == {Pred(n), n, Succ(n)}
 Values == UNION {Around(Small(k)) : k \in {0}} \cup {Small(2), Small(-2)}
           \cup UNION {Around(Pow2(e)) \cup Around(Neg(Pow2(e))) : e \in Exps}
@@ -140,7 +143,8 @@ DurationOverflow == {
 DecimalCase(scale, n) == [fam |-> "decimal", scale |-> scale, neg |-> n.neg, mag |-> n.mag,
                           bytes |-> <<IF scale < 0 THEN 255 ELSE 0, IF scale < 0 THEN 255 ELSE 0, IF scale < 0 THEN 255 ELSE 0,
                                       IF scale < 0 THEN 256 + scale ELSE scale>> \o VarintBytes(n)]
-DecimalCases == {DecimalCase(s, n) : s \in {0, 1, 7, -3, 127, -128}, n \in {Zero, Small(1), Small(-1), Pow2(7), Neg(Pow2(7)), Pred(Neg(Pow2(63))), Pow2(100)}}
+DecimalCases == {DecimalCase(s, n) : s \in {0, 1, 7, -3, 127, -128},
+                   n \in (IF Deep THEN Values ELSE {Zero, Small(1), Small(-1), Pow2(7), Neg(Pow2(7)), Pred(Neg(Pow2(63))), Pow2(100)})}
 
 \* boolean (§6.4), ascii/varchar/blob (identity), uuid (16 bytes), inet (4 or 16 bytes), float/double (IEEE 754 big-endian)
 SimpleCases == {
